@@ -170,15 +170,6 @@ def run(ck, prog, tier, load):
     pr = prog.one(r"^actix_http::h2::dispatcher::prepare_response$")
     appends = [bb for bb, t in pr.calls(r"http::header::map::HeaderMap.*::append$")]
     ck.anchor("C08-d", len(appends), 1, "headers.append (copy of user headers) in prepare_response")
-    skipped = set()
-    for a in pr.live:
-        br = pr.branch(a)
-        if not br:
-            continue
-        if br[0][0] == "discr" and (br[0][2] or "").endswith("StandardHeader"):
-            for lab, tb in br[1]:
-                if isinstance(lab, str) and not any(ap in pr.reach([tb], removed_edges=edges_where(pr, lambda c, l: isinstance(l, bool) and is_local_named(strip_not(c)[0], "skip_len") and False)) for ap in []):
-                    pass
     # simpler and sound: for each candidate name, assume the header is that name and test whether append is reachable
     std = {"connection": "Connection", "transfer-encoding": "TransferEncoding", "upgrade": "Upgrade"}
     for hname, variant in std.items():
